@@ -541,11 +541,13 @@ def set_loop3_invariant(I, frame, i, seq):
     m = seq.origin
     k = z3.Int('k!sl3')
     b = rp_bumped(I, m, t0, k, seq.idx, i)
-    return [ops.forall([k], z3.And(
-        _same_but(t, t0, k, ('generation',)),
-        z3.Select(t.data['generation'], k) ==
-        z3.Select(t0.data['generation'], k) + z3.If(b, 1, 0)),
-        patterns=[z3.Select(t.exists, k)])]
+    return [
+        ops.forall([k], _same_but(t, t0, k, ('generation',)),
+                   patterns=[z3.Select(t.exists, k)]),
+        ops.forall([k], z3.Select(t.data['generation'], k) ==
+                   z3.Select(t0.data['generation'], k) + z3.If(b, 1, 0),
+                   patterns=[z3.Select(t.data['generation'], k)]),
+    ]
 
 
 def set_loop4_entry(I, frame, seq):
@@ -559,11 +561,13 @@ def set_loop4_invariant(I, frame, i, seq):
     m = seq.origin
     k = z3.Int('k!sl4')
     b = z3.And(z3.Select(t0.exists, k), z3.Select(m.dom, k), seq.idx(k) < i)
-    return [ops.forall([k], z3.And(
-        _same_but(t, t0, k, ('generation',)),
-        z3.Select(t.data['generation'], k) ==
-        z3.Select(t0.data['generation'], k) + z3.If(b, 1, 0)),
-        patterns=[z3.Select(t.exists, k)])]
+    return [
+        ops.forall([k], _same_but(t, t0, k, ('generation',)),
+                   patterns=[z3.Select(t.exists, k)]),
+        ops.forall([k], z3.Select(t.data['generation'], k) ==
+                   z3.Select(t0.data['generation'], k) + z3.If(b, 1, 0),
+                   patterns=[z3.Select(t.data['generation'], k)]),
+    ]
 
 
 SET_HAVOC_TYPES = {
